@@ -15,7 +15,8 @@ RULE = (
     "Model-based history testing: Hypothesis generates a model (profiles W/F/N, some tasks as BaseSubProjectTask, "
     "numeric edge values 0, 0.0, -1, empty lists, non-default per-task rules, main workplaces, conveyor links) and "
     "a history of simulate / pause (max_time=k) / backward_simulate / save_load operations (save_load replaces the "
-    "project by the reloaded one; every history ends with one). Oracle at every save_load: (1) writing never raises; "
+    "project by the reloaded one, read into a new BaseProject or into a project object on which another model has "
+    "already been simulated; every history ends with one). Oracle at every save_load: (1) writing never raises; "
     "(2) JSON(file) == JSON(write(read(file))) value-for-value; (3) every cross reference of the restored project is "
     "(by identity) an object of the restored project; (4) every attribute of the curated table of "
     "simulation-relevant constructor parameters (derived with inspect.signature; an unknown new parameter is a "
@@ -223,7 +224,7 @@ def check_references(p, res, where):
             chk(f.ID, "assigned_task_list", f.assigned_task_list, tasks)
 
 
-def save_load(p, res, where, name="c16.json"):
+def save_load(p, res, where, name="c16.json", into=None):
     path = S.tmp_path(name)
     try:
         p.write_simple_json(path)
@@ -232,6 +233,8 @@ def save_load(p, res, where, name="c16.json"):
         return None
     j1 = json.load(open(path))
     p2 = S.BaseProject()
+    if into is not None:
+        p2 = into  # read into a project object that has already been used
     try:
         p2.read_simple_json(path)
     except Exception as e:  # noqa: BLE001
@@ -314,7 +317,14 @@ def check(case):
             if stage in ("paused", "finished_backward"):
                 nt = True
             where = "save_load #%d at stage %s" % (i, stage)
-            p2 = save_load(p, res, where)
+            into = None
+            if flag and k % 2 == 1:
+                # the file is read into an old project object: a different model was simulated on it before
+                hold = S.build(S.perturb(spec, 1))
+                S.simulate(hold.project, dict(opts, max_time=8))
+                into = hold.project
+                res.cls("loaded_into_used_project")
+            p2 = save_load(p, res, where, into=into)
             res.stats["save_loads"] += 1
             if p2 is None or res.violations:
                 break
